@@ -36,7 +36,7 @@ def event_key(ev, fails):
 
 
 def model_replay(prop, tier, ev, rep, module, cfg, *, mode="fraction", label=None, keyfn=fail_key,
-                 timeout=3000, filt=None):
+                 timeout=3000, filt=None, vector=True):
     """run one MC instance, replay all its transitions (Binding A), judge the relationally specified
     outcomes with Trace.tla (Binding B), report failures; returns TLCResult"""
     from .trace import Validator
@@ -63,6 +63,17 @@ def model_replay(prop, tier, ev, rep, module, cfg, *, mode="fraction", label=Non
     per = ev.extra.setdefault("replayed_by_action", {})
     for t in recs:
         per[t["act"]["name"]] = per.get(t["act"]["name"], 0) + 1
+    if mode == "fraction" and vector:
+        from .vector import vector_replay
+
+        def on_fail_vec(t, fails):
+            rep.violation("vector:" + keyfn(t, fails), {"transition": t, "failures": fails, "mode": "fraction, 2-D points",
+                                                        "model": module, "cfg": cfg})
+        nv = vector_replay(recs, lib, on_fail_vec)
+        from .vector import vector_fit
+        nv += vector_fit(recs, lib, val, on_fail_vec)
+        ev.validated += nv
+        ev.extra["paired_calls_with_2D_points"] = ev.extra.get("paired_calls_with_2D_points", 0) + nv
     if val.events:
         verdicts, unknown, stats = val.run(timeout=timeout)
         b = ev.extra.setdefault("binding_B", {"events_judged_by_TLC": 0, "unknown_overflow": 0, "tlc_states": 0,
